@@ -212,7 +212,18 @@ func (c *Ctx) Merge(js []byte) error {
 			c.viols = append(c.viols, v)
 		}
 	}
-	c.infos = append(c.infos, e.Infos...)
+	for _, in := range e.Infos {
+		dup := false
+		for _, have := range c.infos {
+			if have == in {
+				dup = true
+				break
+			}
+		}
+		if !dup {
+			c.infos = append(c.infos, in)
+		}
+	}
 	for k, n := range e.KnownHit {
 		c.knownHit[k] += n
 	}
